@@ -81,7 +81,12 @@ UNDONULL == -3
 
 \* the undo stack is kept only in configurations that can undo
 KeepStack == "Undo" \in Acts \/ "UndoNull" \in Acts
-Push(kind) == IF KeepStack THEN Append(stack, <<pos, hist, kind, legal>>) ELSE stack
+\* (the history needs no copy: every made move and null move appends exactly one entry, undo drops it)
+Push(kind) == IF KeepStack THEN Append(stack, <<pos, kind, legal>>) ELSE stack
+
+\* generator mode with undo ("deep" configurations): walk out until the stack is full or the game is over,
+\* then unwind completely - the do/undo pattern of a search that reaches its maximal depth
+Unwinding == path # <<>> /\ path[Len(path)] = -1
 
 Move(m) ==
     /\ "Move" \in Acts
@@ -90,6 +95,7 @@ Move(m) ==
     /\ m \in legal
     /\ (m + 3 * Len(path) + root) % Thin = 0
     /\ Walks > 0 => m = PickMove(legal, rng, Len(path))
+    /\ (Walks > 0 /\ "Undo" \in Acts) => ~Unwinding
     /\ rng' = IF Walks > 0 THEN Lcg(rng) ELSE rng
     /\ pos' = Apply(pos, m)
     /\ hist' = Append(hist, Ident(pos))
@@ -117,10 +123,11 @@ Undo ==
     /\ "Undo" \in Acts
     /\ Len(path) < MaxDepth
     /\ stack # <<>>
-    /\ stack[Len(stack)][3] = "m"
+    /\ stack[Len(stack)][2] = "m"
+    /\ Walks > 0 => (Len(stack) = MaxStack \/ legal = {} \/ Unwinding)
     /\ pos' = stack[Len(stack)][1]
-    /\ hist' = stack[Len(stack)][2]
-    /\ legal' = stack[Len(stack)][4]
+    /\ hist' = SubSeq(hist, 1, Len(hist) - 1)
+    /\ legal' = stack[Len(stack)][3]
     /\ stack' = SubSeq(stack, 1, Len(stack) - 1)
     /\ path' = Append(path, UNDO)
     /\ kinds' = Append(kinds, <<0, 0>>)
@@ -130,10 +137,10 @@ UndoNull ==
     /\ "UndoNull" \in Acts
     /\ Len(path) < MaxDepth
     /\ stack # <<>>
-    /\ stack[Len(stack)][3] = "n"
+    /\ stack[Len(stack)][2] = "n"
     /\ pos' = stack[Len(stack)][1]
-    /\ hist' = stack[Len(stack)][2]
-    /\ legal' = stack[Len(stack)][4]
+    /\ hist' = SubSeq(hist, 1, Len(hist) - 1)
+    /\ legal' = stack[Len(stack)][3]
     /\ stack' = SubSeq(stack, 1, Len(stack) - 1)
     /\ path' = Append(path, UNDONULL)
     /\ kinds' = Append(kinds, <<0, 0>>)
